@@ -23,7 +23,11 @@ Init == i \in 1..Len(Obs)
 Next == UNCHANGED i
 
 R == Obs[i]
-ModelOf(r) == ModelByName(r.model)
+\* The meta-models are the ones of CrossSdkModels, read back from the file CrossSdkGen wrote: TLC caches only
+\* constant definitions that involve no RECURSIVE operator, and ModelByName would be rebuilt at every use
+\* (MC_CrossSdk checks that the two are the same values).
+G == JsonDeserialize(IOEnv.VERIF_CASES)
+ModelOf(r) == G.models[CHOOSE a \in 1..Len(G.models) : G.models[a].model.name = r.model].model
 RootOf(r) == FamilyRoot(r.fam)
 
 (* ---- pairwise agreement ------------------------------------------------------------------------ *)
@@ -86,7 +90,8 @@ Inv_Ref_Enums == R.kind = "enums" => RefEnumsOk(R)
 
 (* ---- non-vacuity counters (evaluated once) ------------------------------------------------------------- *)
 Idx(kind) == {n \in 1..Len(Obs) : Obs[n].kind = kind}
-NFailing == Cardinality({n \in Idx("inst") : RefErrors(ModelOf(Obs[n]), Obs[n].x) # {}})
+\* an instance is non-trivial when some invariant fails on it; Inv_Ref_Verify ties the Python SDK's list to RefErrors
+NFailing == Cardinality({n \in Idx("inst") : Len(Obs[n].py.errors) > 0})
 NDocRej == Cardinality({n \in Idx("doc") : RefDocVerdict(Obs[n]).r = "rej"})
 NDocOk == Cardinality({n \in Idx("doc") : RefDocVerdict(Obs[n]).r = "ok"})
 NDocEither == Cardinality({n \in Idx("doc") : RefDocVerdict(Obs[n]).r = "either"})
